@@ -1,6 +1,8 @@
 package main
 
 import (
+	"strings"
+	"sort"
 	"fmt"
 	"go/token"
 	"go/types"
@@ -116,20 +118,119 @@ func (pc *propCtx) edgeSafe(pred, succ *ssa.BasicBlock) bool {
 	return ok && pc.holds(c)
 }
 
-// unsafeReach: blocks reachable from just after `at` along edges that do not establish safety.
+// unsafeReach: blocks reachable from just after `at` along edges that do not establish safety. The
+// walk is correlated on the nil-ness of error values: after an edge on which a value is known
+// non-nil (or nil), a phi that receives that value on the path taken is known too, and a later
+// `phi != nil` test is followed only in the feasible direction. (The shape of an expanded checking
+// helper: `var r error; if bad { r = e } ; if r != nil { return r }` — the failing path cannot fall
+// through the second test.)
 func (pc *propCtx) unsafeReach(at ssa.Instruction) map[*ssa.BasicBlock]bool {
 	seen := map[*ssa.BasicBlock]bool{}
-	var walk func(b *ssa.BasicBlock)
-	walk = func(b *ssa.BasicBlock) {
-		for _, s := range b.Succs {
-			if seen[s] || pc.edgeSafe(b, s) {
+	type st struct {
+		b, from *ssa.BasicBlock
+		sig     string
+	}
+	done := map[st]bool{}
+	edgeKnow := func(from, to *ssa.BasicBlock, env map[ssa.Value]int) map[ssa.Value]int {
+		ne := env
+		set := func(v ssa.Value, k int) {
+			if ne[v] == k {
+				return
+			}
+			c := make(map[ssa.Value]int, len(ne)+1)
+			for kk, x := range ne {
+				c[kk] = x
+			}
+			c[v] = k
+			ne = c
+		}
+		for _, f := range edgeFactOf(from, to) {
+			if c, ok := normFact(f); ok && (c.Op == token.EQL || c.Op == token.NEQ) {
+				x, y := c.X, c.Y
+				if isNilConst(x) {
+					x, y = y, x
+				}
+				if isNilConst(y) && isErrorType(x.Type()) {
+					if c.Op == token.NEQ {
+						set(x, 2)
+					} else {
+						set(x, 1)
+					}
+				}
+			}
+		}
+		for _, in := range to.Instrs {
+			phi, ok := in.(*ssa.Phi)
+			if !ok {
+				break
+			}
+			if !isErrorType(phi.Type()) {
 				continue
 			}
+			for i, p := range to.Preds {
+				if p != from {
+					continue
+				}
+				e := phi.Edges[i]
+				switch {
+				case isNilConst(e):
+					set(phi, 1)
+				case definitelyNonNilErr(e, nil):
+					set(phi, 2)
+				case ne[e] != 0:
+					set(phi, ne[e])
+				default:
+					set(phi, 0)
+				}
+			}
+		}
+		return ne
+	}
+	var walk func(b *ssa.BasicBlock, env map[ssa.Value]int, depth int)
+	walk = func(b *ssa.BasicBlock, env map[ssa.Value]int, depth int) {
+		if depth > 300 {
+			return
+		}
+		for _, s := range b.Succs {
+			if pc.edgeSafe(b, s) {
+				continue
+			}
+			// infeasible by what is known about the tested value on this path
+			if iff, ok := b.Instrs[len(b.Instrs)-1].(*ssa.If); ok && len(b.Succs) == 2 && b.Succs[0] != b.Succs[1] {
+				if c, ok := normFact(EdgeFact{Cond: iff.Cond, Taken: b.Succs[0] == s}); ok && (c.Op == token.EQL || c.Op == token.NEQ) {
+					x, y := c.X, c.Y
+					if isNilConst(x) {
+						x, y = y, x
+					}
+					if isNilConst(y) {
+						if k := env[x]; (k == 2 && c.Op == token.EQL) || (k == 1 && c.Op == token.NEQ) {
+							continue
+						}
+					}
+				}
+			}
+			ne := edgeKnow(b, s, env)
+			sig := ""
+			if len(ne) > 0 {
+				var ks []string
+				for kk, x := range ne {
+					if x != 0 {
+						ks = append(ks, fmt.Sprintf("%s=%d", kk.Name(), x))
+					}
+				}
+				sort.Strings(ks)
+				sig = strings.Join(ks, ",")
+			}
+			key := st{s, b, sig}
+			if done[key] {
+				continue
+			}
+			done[key] = true
 			seen[s] = true
-			walk(s)
+			walk(s, ne, depth+1)
 		}
 	}
-	walk(at.Block())
+	walk(at.Block(), map[ssa.Value]int{}, 0)
 	return seen
 }
 
